@@ -665,3 +665,126 @@ pub open spec fn frame_px(f: &AsepriteFile, cels: Seq<(u32, RawCel)>, k: int, cx
     }
 }
 // @end
+
+// @section validate_shims
+/// shim for TilesetsById<P> (a HashMap newtype): `get` is a map lookup (ASSUMED contract of std HashMap)
+#[verifier::external_body]
+#[verifier::reject_recursive_types(P)]
+pub struct TilesetsById<P = Pixels> { _p: core::marker::PhantomData<P> }
+impl<P> TilesetsById<P> {
+    pub uninterp spec fn map(&self) -> Map<u32, Tileset<P>>;
+    #[verifier::external_body]
+    pub fn get(&self, id: u32) -> (r: Option<&Tileset<P>>)
+        ensures
+            (r is Some) == self.map().dom().contains(id),
+            r is Some ==> *(r->0) == self.map()[id],
+    { unimplemented!() }
+}
+impl Tiles {
+    /// TRUSTED shim for `self.0.iter().map(|tile| tile.id.0).max()` (std iterator maximum)
+    #[verifier::external_body]
+    pub fn max_id(&self) -> (r: Option<u32>)
+        ensures
+            (r is None) == (self.0@.len() == 0),
+            r is Some ==> (forall|i: int| 0 <= i < self.0@.len() ==> (#[trigger] self.0@[i]).id.0 <= r->0)
+                && (exists|i: int| 0 <= i < self.0@.len() && (#[trigger] self.0@[i]).id.0 == r->0),
+    { unimplemented!() }
+}
+/// assumed contract of std's Option::map_or (vstd has none): the default for None, else what the closure returns
+pub assume_specification<T, U, F>[ core::option::Option::<T>::map_or ](o: Option<T>, d: U, f: F) -> (r: U)
+    where F: core::ops::FnOnce(T) -> U + core::marker::Destruct, U: core::marker::Destruct,
+    requires o is Some ==> f.requires((o->0,)),
+    ensures o is None ==> r == d, o is Some ==> f.ensures((o->0,), r),
+;
+/// every tile id of the map is below n (what RawCel::validate must establish against the tileset's tile count)
+pub open spec fn tiles_below(tm: &TilemapData, n: int) -> bool {
+    forall|i: int| 0 <= i < tm.tiles.0@.len() ==> ((#[trigger] tm.tiles.0@[i]).id.0 as int) < n
+}
+// @end
+
+// @section validate_spec
+/// TRUSTED shim for `v.into_iter().enumerate()` on a Vec (R16): yields (0, v[0]), (1, v[1]), ... by value
+#[verifier::external_body]
+#[verifier::reject_recursive_types(T)]
+pub struct EnumIntoIter<T> { _p: core::marker::PhantomData<T> }
+pub uninterp spec fn enum_rem<T>(it: EnumIntoIter<T>) -> Seq<(usize, T)>;
+impl<T> Iterator for EnumIntoIter<T> {
+    type Item = (usize, T);
+    #[verifier::external_body]
+    fn next(&mut self) -> Option<(usize, T)> { unimplemented!() }
+}
+impl<T> vstd::std_specs::iter::IteratorSpecImpl for EnumIntoIter<T> {
+    open spec fn obeys_prophetic_iter_laws(&self) -> bool { true }
+    open spec fn remaining(&self) -> Seq<(usize, T)> { enum_rem(*self) }
+    open spec fn will_return_none(&self) -> bool { true }
+    open spec fn decrease(&self) -> Option<nat> { Some(enum_rem(*self).len()) }
+    open spec fn peek(&self, i: int) -> Option<(usize, T)> {
+        if 0 <= i < enum_rem(*self).len() { Some(enum_rem(*self)[i]) } else { None }
+    }
+}
+#[verifier::external_body]
+pub fn vec_into_iter_enumerate<T>(v: Vec<T>) -> (r: EnumIntoIter<T>)
+    ensures
+        enum_rem(r).len() == v@.len(),
+        forall|i: int| 0 <= i < v@.len() ==> #[trigger] enum_rem(r)[i] == (i as usize, v@[i]),
+{ unimplemented!() }
+
+impl<P> CelsData<P> {
+    pub open spec fn at(&self, f: int, l: int) -> Option<RawCel<P>> {
+        if 0 <= f < self.data.len() && 0 <= l < self.data[f].len() { self.data[f][l] } else { None }
+    }
+}
+/// RawPixels::validate's verdict: same data; indexed pixels all have a palette entry
+pub open spec fn pixels_validated(src: RawPixels, dst: Pixels) -> bool {
+    match src {
+        RawPixels::Rgba(data) => dst is Rgba && dst->Rgba_0@ == data@,
+        RawPixels::Grayscale(data) => dst is Grayscale && dst->Grayscale_0@ == data@,
+        RawPixels::Indexed(data) => dst is Indexed && dst->Indexed_data@ == data@
+            && forall|i: int| 0 <= i < data@.len() ==> (*dst->Indexed_palette).entries@.contains_key(#[trigger] data@[i] as u32),
+    }
+}
+/// RawCel::validate's verdict on the cel stored for layer `layer`
+pub open spec fn cel_validated(src: RawCel<RawPixels>, dst: RawCel<Pixels>, layer: int, layers: &LayersData, tilesets: &TilesetsById) -> bool {
+    dst.data == src.data && dst.user_data == src.user_data && match src.content {
+        CelContent::Raw(ic) => dst.content is Raw && dst.content->Raw_0.size == ic.size && pixels_validated(ic.pixels, dst.content->Raw_0.pixels),
+        CelContent::Linked(fr) => dst.content == CelContent::<Pixels>::Linked(fr),
+        // a tilemap cel is accepted only in a tilemap layer and if every tile id exists in that layer's tileset
+        CelContent::Tilemap(tm) => dst.content == CelContent::<Pixels>::Tilemap(tm)
+            && layers.layers[layer].layer_type is Tilemap
+            && ({ let id = layers.layers[layer].layer_type->Tilemap_0;
+                  tiles_below(&tm, if tilesets.map().dom().contains(id) { tilesets.map()[id].tile_count as int } else { 0 }) }),
+    }
+}
+/// a cel that may be the target of a link: it exists and holds pixel data itself
+pub open spec fn linkable(cd: &CelsData<RawPixels>, f: int, l: int) -> bool {
+    cd.at(f, l) is Some && cd.at(f, l)->0.content is Raw
+}
+/// the link table built by CelsData::validate: `rows` complete rows of `nl` entries and `extra` entries of the next row;
+/// entry f*nl + l says whether (frame f, layer l) may be the target of a link (layer ids above 65535 cannot be named by a cel)
+pub open spec fn link_table_ok(cd: &CelsData<RawPixels>, t: Seq<bool>, nl: int, rows: int, extra: int) -> bool {
+    &&& t.len() == rows * nl + extra
+    &&& forall|f: int, l: int| 0 <= f && 0 <= l < nl && l <= 65535 && (f < rows || (f == rows && l < extra))
+            ==> (#[trigger] linkable(cd, f, l)) == t[f * nl + l]
+}
+pub proof fn lemma_row_index(f: int, l: int, nl: int, rows: int, extra: int)
+    requires 0 <= f, 0 <= l < nl, 0 <= extra <= nl, f < rows || (f == rows && l < extra),
+    ensures 0 <= f * nl + l < rows * nl + extra,
+{
+    assert(0 <= f * nl) by (nonlinear_arith) requires 0 <= f, 0 <= nl;
+    if f < rows {
+        assert(f * nl + nl <= rows * nl) by (nonlinear_arith) requires f + 1 <= rows, 0 <= nl;
+    }
+}
+/// CelsData::validate's verdict on one slot of the cel table
+pub open spec fn cell_ok(cd: &CelsData<RawPixels>, src: Option<RawCel<RawPixels>>, dst: Option<RawCel<Pixels>>, l: int, layers: &LayersData, tilesets: &TilesetsById) -> bool {
+    match src {
+        None => dst is None,
+        // every cel sits in an existing layer, passed RawCel::validate, and a link points at an existing raw cel of the same layer
+        Some(c) => l < layers.layers@.len() && dst is Some && cel_validated(c, dst->0, l, layers, tilesets)
+            && (c.content is Linked ==> (c.content->Linked_0 as int) < cd.num_frames && linkable(cd, c.content->Linked_0 as int, l)),
+    }
+}
+pub open spec fn row_ok(cd: &CelsData<RawPixels>, src: Seq<Option<RawCel<RawPixels>>>, dst: Seq<Option<RawCel<Pixels>>>, upto: int, layers: &LayersData, tilesets: &TilesetsById) -> bool {
+    forall|l: int| 0 <= l < upto ==> cell_ok(cd, src[l], #[trigger] dst[l], l, layers, tilesets)
+}
+// @end
